@@ -3,6 +3,7 @@ package scen
 import (
 	"bytes"
 	"encoding/hex"
+	"errors"
 	"fmt"
 	"io"
 	"time"
@@ -11,6 +12,7 @@ import (
 	"github.com/tjfoc/gmsm/verifsim/pki"
 	"github.com/tjfoc/gmsm/verifsim/ref/reftls"
 	"github.com/tjfoc/gmsm/verifsim/simkit"
+	"github.com/tjfoc/gmsm/x509"
 )
 
 // C16: histories of connections, ticket-key rotations, restarts, configuration
@@ -18,7 +20,7 @@ import (
 // model of the resumption policy (DESIGN.md Appendix D).
 
 var resFaults = []string{"rotate-keep-old", "rotate-drop-old", "rotate-retire-old-only", "rotate-readmit-retired", "rotate-old-key-primary-again", "restart-keep-key", "restart-lose-key", "change-suites", "change-client-auth", "disable-tickets", "enable-tickets", "evict-by-other-name", "other-server-shared-key", "other-server-own-key",
-	"change-max-version", "clone-config", "ticket-byte-flip", "ticket-truncated", "ticket-extended", "ticket-suite-not-offered", "ticket-genuine-via-reference-client", "clock-jump", "connection-damaged-after-ticket", "change-client-cas", "library-default-ticket-key"}
+	"change-max-version", "clone-config", "ticket-byte-flip", "ticket-truncated", "ticket-extended", "ticket-suite-not-offered", "ticket-genuine-via-reference-client", "clock-jump", "connection-damaged-after-ticket", "change-client-cas", "library-default-ticket-key", "hello-without-null-compression", "peer-certificate-callback-rejects"}
 var resReach = []string{"resumed", "full-handshake", "resumed-with-old-key-ticket-refreshed", "fallback-after-rotation", "fallback-suite-change", "fallback-client-auth", "fallback-tickets-off", "fallback-evicted", "fallback-forged-ticket", "completeness-checked", "soundness-checked", "master-equal-checked", "wire-decoded-resumed", "gm-mode", "tls-mode", "client-cert-in-ticket", "history>=4", "refclient-tls12", "wire-decoded-resumed-tls12", "policy-forbids-failed", "ticket-seen-in-failed-handshake", "per-connection-config"}
 
 func init() {
@@ -26,19 +28,21 @@ func init() {
 }
 
 type resSrv struct {
-	name       string
-	cfg        *gmtls.Config
-	keys       []int // key generations, first = primary
-	retired    []int // generations once configured, no longer
-	suites     []uint16
-	policy     gmtls.ClientAuthType
-	ticketsOff bool
-	maxVers    uint16 // TLS mode: 0 = default (TLS 1.2)
-	second     bool   // GMSSL: serves the second identity (server2.sim)
-	otherCAs   bool   // ClientCAs switched to a root that did not issue the client's certificate
-	ent        *simkit.Stream
-	keylog     *bytes.Buffer
-	lib        bool // no ticket key configured: the library draws one (a new one for every Config built)
+	name                     string
+	cfg                      *gmtls.Config
+	keys                     []int // key generations, first = primary
+	retired                  []int // generations once configured, no longer
+	suites                   []uint16
+	policy                   gmtls.ClientAuthType
+	ticketsOff               bool
+	maxVers                  uint16 // TLS mode: 0 = default (TLS 1.2)
+	second                   bool   // GMSSL: serves the second identity (server2.sim)
+	otherCAs                 bool   // ClientCAs switched to a root that did not issue the client's certificate
+	ent                      *simkit.Stream
+	keylog                   *bytes.Buffer
+	everNoCert, everOtherCAs bool // the server has at some time not requested client certificates / trusted other client CAs
+	cbReject                 bool // VerifyPeerCertificate refuses every certificate (for one connection)
+	lib                      bool // no ticket key configured: the library draws one (a new one for every Config built)
 }
 
 type issuedTicket struct {
@@ -149,12 +153,23 @@ func runResumption(c *simkit.Choice, r *simkit.Rec) {
 		}
 		cfg.CipherSuites = sv.suites
 		cfg.MaxVersion = sv.maxVers
+		if sv.cbReject {
+			cfg.VerifyPeerCertificate = func([][]byte, [][]*x509.Certificate) error {
+				return errors.New("verifsim: the application refuses this client certificate")
+			}
+		}
 		if alpn && !gm {
 			cfg.NextProtos = []string{"h2", "sim/2"}
 		}
 		return cfg
 	}
 	mkCfg = func(sv *resSrv) {
+		if sv.policy == gmtls.NoClientCert {
+			sv.everNoCert = true
+		}
+		if sv.otherCAs {
+			sv.everOtherCAs = true
+		}
 		cfg := build(sv)
 		if perConn {
 			cfg.GetConfigForClient = func(*gmtls.ClientHelloInfo) (*gmtls.Config, error) { return build(sv), nil }
@@ -733,7 +748,7 @@ func runResumption(c *simkit.Choice, r *simkit.Rec) {
 		for step := 0; step < nops && !violated() && r.HarnessErr == ""; step++ {
 			fixSuites()
 			sv := srvs[c.Choose(len(srvs), simkit.LOp)]
-			op := c.Weighted([]int{10, 3, 2, 2, 2, 2, 1, 3, 3, 1, 2, 2, 2, 2}, simkit.LOp)
+			op := c.Weighted([]int{10, 3, 2, 2, 2, 2, 1, 3, 3, 1, 2, 2, 2, 2, 2}, simkit.LOp)
 			if step == 0 {
 				op = 0
 			}
@@ -930,6 +945,19 @@ func runResumption(c *simkit.Choice, r *simkit.Rec) {
 				if len(ticket) == 0 {
 					rc.Ticket = nil
 				}
+				if c.Bool(1, 6, simkit.LFault) {
+					// the same hello without the null compression method: no handshake, resumed
+					// or full, may come of it
+					rc.Compress = []byte{1}
+					history[len(history)-1] += "+no-null-compression"
+					r.Fault(idx(resFaults, "hello-without-null-compression"))
+					out := connect(fmt.Sprint(step)+"r", sv, nil, rc, 0)
+					if out.serr == nil || (out.refRes != nil && out.refRes.Complete) {
+						fail("completed-with-misbehaving-peer", map[bool]string{true: "gmssl", false: "tls"}[gm], fmt.Sprintf("a ClientHello whose compression methods lack null (offering a %d-byte ticket, forged=%v) was answered with a completed handshake: server err=%v, DidResume=%v", len(ticket), forged, out.serr, out.sst.DidResume))
+						return
+					}
+					continue
+				}
 				out := connect(fmt.Sprint(step)+"r", sv, nil, rc, 0)
 				if len(ticket) > 0 || !forged {
 					judge(step, sv, out, true, forged, offer, "server.sim")
@@ -953,6 +981,32 @@ func runResumption(c *simkit.Choice, r *simkit.Rec) {
 							r.Reach(idx(resReach, "ticket-seen-in-failed-handshake"))
 						}
 					}
+				}
+			case 14: // one connection while the application's VerifyPeerCertificate callback says no
+				// (only in histories in which every session the client can hold was made with
+				// its certificate: no server ever ran without requesting one)
+				certless := !clientHasCert
+				for _, x := range srvs {
+					if x.everNoCert || x.otherCAs || x.everOtherCAs {
+						certless = true
+					}
+				}
+				if certless {
+					continue
+				}
+				// the client has a certificate and the server asks for one (or finds one in the
+				// ticket): whichever way the certificates reach the server, the callback sees
+				// them and refuses, so no handshake - full or abbreviated - may complete
+				sv.cbReject = true
+				mkCfg(sv)
+				history = append(history, fmt.Sprintf("connect-under-rejecting-callback(%s)", sv.name))
+				r.Fault(idx(resFaults, "peer-certificate-callback-rejects"))
+				out := connect(fmt.Sprint(step)+"v", sv, mkClient("server.sim", clientSuites), nil, 0)
+				sv.cbReject = false
+				mkCfg(sv)
+				if out.serr == nil {
+					fail("completed-but-policy-forbids", map[bool]string{true: "gmssl", false: "tls"}[gm], fmt.Sprintf("the server's VerifyPeerCertificate callback refuses the client's certificate, yet the server completed (DidResume=%v, %d peer certificates)", out.sst.DidResume, len(out.sst.PeerCertificates)))
+					return
 				}
 			case 13: // the set of acceptable client CAs changes
 				sv.otherCAs = !sv.otherCAs
